@@ -316,11 +316,11 @@ def launchModes : List String := ["cuda", "hip", "opencl", "metal", "dpcpp"]
 
 /-- the observation line of harness/h_loops.cpp for a kernel whose nest is `ns` -/
 def kernelLine (ns : List Node) : String :=
-  "ok | serial " ++ joinLines (hostLines false ns false)
-    ++ " | openmp " ++ joinLines (hostLines true ns false)
+  "ok @@ serial " ++ joinLines (hostLines false ns false)
+    ++ " @@ openmp " ++ joinLines (hostLines true ns false)
     ++ String.join (launchModes.map fun m =>
-         " | " ++ m ++ " " ++ joinLines (deviceLines m ns)
-         ++ " | " ++ m ++ ".launcher " ++ joinLines (launcherLines ns))
+         " @@ " ++ m ++ " " ++ joinLines (deviceLines m ns)
+         ++ " @@ " ++ m ++ ".launcher " ++ joinLines (launcherLines ns))
 
 /-! ### @dim (dim.cpp, F26 repaired) -/
 
